@@ -90,7 +90,7 @@ var alphas = map[string]alphaDef{
 	// add_date components
 	"ADD": {iL(0, 1, -1, 2, 3, 10, 64, -5), iL(12, 31, 400)},
 	// text.join arrays
-	"SA":  {[]string{"sa:empty", "sa:a", "sa:abc", "sa:gaps", "isa:abc"}, []string{"sa:utf8", "isa:empty"}},
+	"SA":  {[]string{"sa:empty", "sa:a", "sa:abc", "sa:gaps", "isa:abc", "sa:w1", "sa:w2", "sa:w3"}, []string{"sa:utf8", "isa:empty"}},
 	"SEP": {sL("", ",", " - ", "ö"), sL("a", "\n")},
 }
 
